@@ -153,4 +153,16 @@ def forwards (outer inner : USig) (n : Nat) (nms : List Nat)
   let m ← mask inner n nms { args := hideArgs, kwargs := hideKwargs }
   embed uva uvk [outer, m]
 
+/-! ### retrieval of a bound method / a class from a function that carries a stored signature -/
+
+/-- what `inspect.signature` does with a stored `__signature__` for a bound method or a class: the receiver is removed
+    from the parameters; what it does not know about (the provenance maps) is carried over by `replace(parameters=…)` -/
+def dropReceiver (sig : USig) : USig := { sig with params := sig.params.tail }
+
+/-- the tail of `signatures.signature` (as after `fix:` D56): entries of parameters that are gone are dropped -/
+def pruneSrc (sig : USig) : USig :=
+  { sig with src := sig.src.filter (fun e => (names sig.params).contains e.1) }
+
+def retrieveBound (sig : USig) : USig := pruneSrc (dropReceiver sig)
+
 end SV
